@@ -287,6 +287,13 @@ func c10Once(cs *core.Case) (ran, nontrivial bool, sym, det string) {
 		core.AfterBuild = func() { core.BuildEngine(&other, nil) }
 		defer func() { core.AfterBuild = nil }()
 	}
+	if strings.Contains(cs.Note, "feat:late-endpoints") {
+		// the endpoints report one remote engine while the distributed engine is
+		// constructed and all of them from then on
+		core.EndpointsAtBuild = 1
+		core.AfterBuild = core.RevealEndpoints
+		defer func() { core.EndpointsAtBuild = -1; core.AfterBuild = nil }()
+	}
 	dist := core.RunEngine(cs, st)
 	if s, d := engineSymptom(dist); s != "" {
 		return true, false, s, d
@@ -387,8 +394,11 @@ func init() {
 		ws := []core.Window{core.Range(10000, 30000, 14), core.Instant(100000)}
 		// optimizer sets other than none (the distributed optimizer runs after them), with
 		// and without a second distributed engine constructed in the same process
-		for _, opt := range []string{"", "all", "sm", "p"} {
+		for _, opt := range []string{"", "all", "sm", "p", "none"} {
 			for _, second := range []bool{false, true} {
+				if opt == "none" && !second {
+					continue
+				}
 				data := c10Data("regular", 3)
 				for code := 0; code < 8; code++ {
 					dist := make([]int, len(data))
@@ -405,7 +415,10 @@ func init() {
 								return
 							}
 							cs := &core.Case{Q: q, Data: data, W: w, O: core.Opts{Optimizers: opt}, Dist: dist, NDist: 2, Note: "optimizers"}
-							if second {
+							if second && opt == "none" {
+								// remote engines that are discovered after the engine was built
+								cs.Note = "feat:late-endpoints"
+							} else if second {
 								cs.Note += " feat:second-engine"
 							}
 							if !c.Progress(cs) {
